@@ -87,7 +87,17 @@ def vol_accounting(F, S):
             if nd["k"] == "CompoundAssignOperator" and nd.get("op") == "+=":
                 l = f.term(f.kids(nd["id"])[0])
                 if l[0] == "mem" and l[2] == "stringTableLength":
-                    acc = f.term(f.kids(nd["id"])[1])
+                    acc = f.xterm(f.kids(nd["id"])[1])
+            elif nd["k"] == "BinaryOperator" and nd.get("op") == "=":
+                # `len = len + x` (possibly through a wider local that is range-checked first) is the same accumulation
+                l = f.term(f.kids(nd["id"])[0])
+                if l[0] == "mem" and l[2] == "stringTableLength":
+                    r = f.xterm(f.kids(nd["id"])[1])
+                    co, c0 = linear(r)
+                    if co.get(l) == 1:
+                        rest = {k: v for k, v in co.items() if k != l}
+                        if len(rest) == 1 and list(rest.values()) == [1]:
+                            acc = ("op", "+", list(rest.keys())[0], ("const", c0))
     def shape(t):
         # size(names[i]) + 1 irrespective of the object it hangs off (or size(name) + 1 for `name` ranging over names)
         if not (t[0] == "op" and t[1] == "+" and t[3] == ("const", 1) and t[2][0] == "size"):
